@@ -326,7 +326,7 @@ A = {
     # NaN; ordinary; -inf and 2**53 neighbours collide with unique's nanmin-1 sentinel;
     # +-0.0 equality
     "f8": {
-        "quick": [None, "1.0", "2.0", "-inf", "-0.0", "0.0"],
+        "quick": [None, "1.0", "2.0", "-inf", "-0.0", "0.0", "inf"],
         "thorough": [None, "1.0", "2.0", "-inf", "-0.0", "0.0", "inf", "9007199254740992.0", "9007199254740994.0", "-1.152921504606847e+18",
                      "0.3", "0.30000000000000004"],
         "key": [None, "1.0", "2.0"],
